@@ -118,10 +118,10 @@ impl Monitor for C04 {
         "C04"
     }
     fn gens(&self, tier: Tier) -> Vec<(&'static str, u64)> {
-        vec![("runs", tier.pick(21_000, 420_000))]
+        vec![("runs", tier.pick(21_000, 420_000)), ("exact_fit", tier.pick(6_000, 120_000))]
     }
     fn rule(&self) -> &'static str {
-        "case i -> objective (i mod 7), optimizer kind (i/7 mod 5: SGD, SGDM, Adam, AdamW, RMSprop with random decay / dampening / momentum / centred), N in 1..23, B from {1,2,3,5,7,N-1,N,N+1,64} (so B=1, B not dividing N and B>N occur in every block of nine cases), E in 1..5, validation data in every second case, pools of 1..8 threads; random network of dense/conv/deconv/max-pool layers ending in a dense layer, pairwise different samples. (a) the hooked Forward/Update event log of the learn() call (and, in every third case, of a second learn() call on the same network) must match the trace grammar: per epoch the consecutive groups of B samples, each sample's forward pass exactly once and all before the group's single Update, Update step number = epoch index, then every validation sample once; nothing else. (b) a twin trainer recomputes the run: per-sample gradients from the library's own forward + hooked backward at the twin's weights, summed in sample order, one step of the documented update rule per group; final weights must agree within 1e-4 x (|w| + distance travelled) + 1e-6 and the per-epoch loss must equal the mean over groups of the mean per-sample loss. Distinct = distinct (network, optimizer, N, B, E) descriptors."
+        "case i -> objective (i mod 7), optimizer kind (i/7 mod 5: SGD, SGDM, Adam, AdamW, RMSprop with random decay / dampening / momentum / centred), N in 1..23, B from {1,2,3,5,7,N-1,N,N+1,64} (so B=1, B not dividing N and B>N occur in every block of nine cases), E in 1..5, validation data in every second case, pools of 1..8 threads; random network of dense/conv/deconv/max-pool layers ending in a dense layer, pairwise different samples. (a) the hooked Forward/Update event log of the learn() call (and, in every third case, of a second learn() call on the same network) must match the trace grammar: per epoch the consecutive groups of B samples, each sample's forward pass exactly once and all before the group's single Update, Update step number = epoch index, then every validation sample once; nothing else. (b) a twin trainer recomputes the run: per-sample gradients from the library's own forward + hooked backward at the twin's weights, summed in sample order, one step of the documented update rule per group; final weights must agree within 1e-4 x (|w| + distance travelled) + 1e-6 and the per-epoch loss must equal the mean over groups of the mean per-sample loss. exact_fit: the same two checks on dense networks whose first layer is a ReLU layer with positive weights and negative bias followed by bias-free layers, with runs of samples that are fitted exactly (negative inputs, zero targets: loss 0, gradient 0) between ordinary samples, objectives AE / MAE / MSE: a group whose samples are all fitted exactly still receives its optimizer step (momentum, moment estimates and weight decay keep acting). Distinct = distinct (network, optimizer, N, B, E) descriptors."
     }
     fn assumptions(&self) -> Vec<&'static str> {
         vec![
@@ -132,7 +132,8 @@ impl Monitor for C04 {
     }
     fn run(&self, gen: &str, seed: u64, idx: u64, _tier: Tier) -> Out {
         let mut rng = Rng::stream(seed, gen, idx);
-        let obj = OBJS[(idx % 7) as usize];
+        let exact = gen == "exact_fit";
+        let obj = if exact { [Obj::AE, Obj::MAE, Obj::MSE][(idx % 3) as usize] } else { OBJS[(idx % 7) as usize] };
         let opt = gen_optimizer(&mut rng, ((idx / 7) % 5) as usize);
         let n = 1 + ((idx / 35) % 23) as usize;
         let bsel = ((idx / 3) % 9) as usize;
@@ -158,7 +159,18 @@ impl Monitor for C04 {
         o.max_count = 30;
         o.max_extent = 5;
         o.end_dense = Some(if softmax { Act::Softmax } else if obj.probabilistic() { Act::Sigmoid } else { *rng.pick(&[Act::Linear, Act::Tanh, Act::Sigmoid]) });
-        let cfg = random_net(&mut rng, &o);
+        let cfg = if exact {
+            // first layer ReLU with positive weights and negative bias: all-negative inputs give an
+            // exactly zero hidden vector, the bias-free rest maps it to exactly zero outputs
+            let mut layers = vec![LCfg::Dense { n: rng.range(2, 4), act: Act::Relu, bias: true, dropout: None }];
+            if rng.bool() {
+                layers.push(LCfg::Dense { n: rng.range(2, 4), act: *rng.pick(&[Act::Relu, Act::Leaky, Act::Linear, Act::Tanh]), bias: false, dropout: None });
+            }
+            layers.push(LCfg::Dense { n: rng.range(1, 3), act: *rng.pick(&[Act::Linear, Act::Tanh]), bias: false, dropout: None });
+            NetCfg::plain(Sh::Flat(rng.range(2, 4)), layers)
+        } else {
+            random_net(&mut rng, &o)
+        };
         let outputs = match cfg.layers.last().unwrap() {
             LCfg::Dense { n, .. } => *n,
             _ => unreachable!(),
@@ -169,8 +181,43 @@ impl Monitor for C04 {
         if let LCfg::Dense { n, .. } = &mut cfg.layers[last] {
             *n = outputs;
         }
-        let params = gen_params(&cfg, &mut rng, -0.8, 0.8).unwrap();
-        let train = random_data(&mut rng, cfg.input, n, outputs, obj, softmax);
+        let mut params = gen_params(&cfg, &mut rng, -0.8, 0.8).unwrap();
+        let mut train = random_data(&mut rng, cfg.input, n, outputs, obj, softmax);
+        if exact {
+            if let P::Dense { w, b } = &mut params[0] {
+                for row in w.iter_mut() {
+                    for v in row.iter_mut() {
+                        *v = rng.f32_in(0.1, 0.8);
+                    }
+                }
+                if let Some(b) = b {
+                    for v in b.iter_mut() {
+                        *v = rng.f32_in(-0.5, -0.1);
+                    }
+                }
+            }
+            // runs of exactly fitted samples (negative inputs, zero targets) between ordinary ones
+            let (mut xs, mut ts) = (train.xs.clone(), train.ts.clone());
+            let mut dead = rng.bool();
+            for i in 0..n {
+                if rng.chance(0.35) {
+                    dead = !dead;
+                }
+                if dead {
+                    for v in xs[i].iter_mut() {
+                        *v = -rng.f32_in(0.1, 1.5);
+                    }
+                    for v in ts[i].iter_mut() {
+                        *v = 0.0;
+                    }
+                } else {
+                    for v in xs[i].iter_mut() {
+                        *v = rng.f32_in(0.3, 1.5);
+                    }
+                }
+            }
+            train = DataSet::new(cfg.input, xs, ts);
+        }
         let nv = rng.range(1, 6);
         let mut val = random_data(&mut rng, cfg.input, nv, outputs, obj, softmax);
         // validation inputs must differ from training inputs (tags identify samples)
@@ -295,6 +342,8 @@ impl Monitor for C04 {
         // (sign-like objective gradients, kinks, normalising optimizers fed with rounding noise)
         // the dynamics amplify rounding and the comparison is loosened by that drift.
         let objf = objective::Function::create(lib_obj(obj), None);
+        let fitted_groups = std::cell::Cell::new(0u64);
+        let fitted_after_first = std::cell::Cell::new(0u64);
         let run_twin = |single: bool| -> Result<(Vec<Vec<f64>>, Vec<Vec<f64>>, Vec<f64>), String> {
             let mut w: Vec<Vec<f64>> = params.iter().map(|p| p.flat().iter().map(|v| *v as f64).collect()).collect();
             let mut st: Vec<Vec<St<f64>>> = w.iter().map(|l| vec![St::default(); l.len()]).collect();
@@ -328,6 +377,12 @@ impl Monitor for C04 {
                         }
                         loss_epoch += lsum / g.len() as f64;
                         groups += 1;
+                        if !single && lsum == 0.0 && sum.iter().all(|l| l.iter().all(|v| *v == 0.0)) {
+                            fitted_groups.set(fitted_groups.get() + 1);
+                            if epoch > 1 || g[0] > 0 {
+                                fitted_after_first.set(fitted_after_first.get() + 1);
+                            }
+                        }
                         for li in 0..w.len() {
                             for k in 0..w[li].len() {
                                 let before = w[li][k];
@@ -360,6 +415,8 @@ impl Monitor for C04 {
                 return out;
             }
         };
+        out.count("groups_whose_samples_are_all_fitted_exactly_(zero_loss_zero_gradient)", fitted_groups.get());
+        out.count("exactly_fitted_groups_after_the_optimizer_state_may_be_non_zero", fitted_after_first.get());
         // compare final weights
         let finalp = get_params(&net);
         let mut lib_flat: Vec<f32> = Vec::new();
@@ -445,6 +502,7 @@ impl Monitor for C04 {
     fn finish(&self, _tier: Tier, _seed: u64, agg: &mut Agg) {
         agg.require(agg.set_size("n_b_relation") == 4, "N/B relations not all exercised".into());
         agg.require(agg.set_size("optimizer_x_objective") == 35, format!("{} of 35 optimizer x objective combinations", agg.set_size("optimizer_x_objective")));
+        agg.require(agg.count("exactly_fitted_groups_after_the_optimizer_state_may_be_non_zero") >= 500, "too few exactly fitted groups".into());
         agg.require(agg.count("learn_runs") >= 1500, format!("{} learn runs judged", agg.count("learn_runs")));
     }
 }
